@@ -352,6 +352,31 @@ func (s *scope) setInstance(descriptor *Descriptor, key instanceKey, instance an
 	}
 }
 
+// trackOnly makes the owner of the given lifetime dispose an instance that is not stored under any identity
+// (the constructor produced it, but its registration was removed before Build).
+func (s *scope) trackOnly(lifetime Lifetime, instance any) {
+	d, ok := instance.(Disposable)
+	if !ok {
+		return
+	}
+
+	if lifetime == Singleton {
+		s.rootProvider.trackDisposable(d)
+		return
+	}
+
+	s.disposablesMu.Lock()
+	late := s.disposables == nil && atomic.LoadInt32(&s.disposed) != 0
+	if !late {
+		s.disposables = append(s.disposables, d)
+	}
+	s.disposablesMu.Unlock()
+
+	if late {
+		closeLate(d)
+	}
+}
+
 // cacheInstance caches an instance under one more identity without tracking it for disposal again.
 func (s *scope) cacheInstance(descriptor *Descriptor, key instanceKey, instance any) {
 	switch descriptor.Lifetime {
@@ -564,8 +589,9 @@ func (s *scope) createInstance(descriptor *Descriptor) (any, error) {
 				primaryService = value
 			}
 
-			// An output whose registration was removed before Build is not stored
+			// An output whose registration was removed before Build is not stored, but it stays owned
 			if regDescriptor != nil && regDescriptor != descriptor && !s.rootProvider.isRegistered(regDescriptor) {
+				s.trackOnly(regDescriptor.Lifetime, value)
 				continue
 			}
 
@@ -611,8 +637,9 @@ func (s *scope) createInstance(descriptor *Descriptor) (any, error) {
 				serviceDescriptor = s.rootProvider.findDescriptor(ret.Type, nil)
 			}
 
-			// An output whose registration was removed before Build is not stored
+			// An output whose registration was removed before Build is not stored, but it stays owned
 			if serviceDescriptor != nil && serviceDescriptor != descriptor && !s.rootProvider.isRegistered(serviceDescriptor) {
+				s.trackOnly(serviceDescriptor.Lifetime, value)
 				continue
 			}
 
